@@ -311,7 +311,7 @@ def remainingParts (remaining : Option Bytes) : List Bytes :=
 def mkdirFrom (env : Env) (perm : Nat) (handle : Fd) (remaining : Option Bytes) : M Fd := do
   let cur ← (Procfs.reopen env handle O_DIRECTORY).onErr
     -- the error message freezes the handle (`FrozenFd::from(handle)`)
-    (Prog.bind (Sys.freeze Sys.diagFuel handle) fun _ => Sys.close handle)
+    (Prog.bind (Sys.freeze handle) fun _ => Sys.close handle)
   let parts := remainingParts remaining
   if parts.any (· == Path.dotdot) then
     (Sys.closeAll [cur, handle] : Prog Unit)
